@@ -191,6 +191,15 @@ pub fn run(ctx: &Ctx, model: &mut Model, rep: &mut Report) {
     let case_of = |v: &serde_json::Value| Case { base_name: v["base"].as_str().unwrap_or("lib").to_string(), files: v["files"].as_array().map(|a| a.iter().filter_map(|x| x.as_str().map(|s| s.to_string())).collect()).unwrap_or_default() };
     if let Some(path) = &ctx.replay {
         let v: serde_json::Value = serde_json::from_str(&std::fs::read_to_string(path).unwrap()).unwrap();
+        if let Some(r) = crate::cli::replay(&v) {
+            rep.evaluations += 1;
+            if let Some(w) = r {
+                let mut f = v.clone();
+                f["what"] = json!(w);
+                rep.fail(f);
+            }
+            return;
+        }
         rep.evaluations += 1;
         if let Some(w) = check_case(model, &case_of(&v), "replay", None) {
             rep.fail(json!({"kind": "uri", "base": v["base"], "files": v["files"], "what": w}));
@@ -214,6 +223,17 @@ pub fn run(ctx: &Ctx, model: &mut Model, rep: &mut Report) {
         rep.case(&format!("{}{:?}", case.base_name, case.files), case.files.iter().any(|f| f.contains('/') || f.matches('.').count() > 1));
         if i < 2 {
             rep.sample(json!({"base": case.base_name, "files": case.files}));
+        }
+        // `iwe normalize` writes every note back to the file it was read from (and `iwe paths` lists them): the binary on
+        // the same file names, for names that need no escaping
+        if i % 4 == 1 && !wild {
+            let lib: Vec<(String, String)> = case.files.iter().enumerate().map(|(n, f)| (f.trim_end_matches(".md").to_string(), format!("# note {}\n\n*  text  *\n", n))).collect();
+            let cli = crate::cli::CliCase { lib: &lib, ext: "", sub: if i % 8 == 1 { "" } else { "my lib" }, squash: None, paths_depth: 3, tag: &format!("c14-{}", i) };
+            rep.count("cli_cases");
+            rep.evaluations += 1;
+            if let Some(w) = crate::cli::check(&cli) {
+                rep.fail(cli.failure(w));
+            }
         }
         if let Some(w) = check_case(model, &case, &format!("{}", i), Some(rep)) {
             if wild && d15 {
